@@ -354,6 +354,7 @@ pub fn dispatch(args: &Args) -> i32 {
             }))
         }
         "C13" => crate::extra::c13(args),
+        "C17" => crate::extra::c17(args),
         "C14" => {
             let pls = ["flat", "flat_wo", "deep", "flat>deep"];
             let parts = vec![part_chains(args, &pls), part_chains_exh(args, &["flat", "deep"], false)];
